@@ -178,7 +178,7 @@ theorem C07_dec_earlier_nothing {C : CodecNew} {G : Group} (hG : G.WF) (dec : De
     (j ∉ got → got.length + 1 < G.d → (dec.decode C (G.packet C j)).recovered = []) ∧
     (j ∈ got → (dec.decode C (G.packet C j)).recovered = [] ∧
                 (dec.decode C (G.packet C j)).st.sets = dec.sets) :=
-  ⟨fun hnot hlen => (FecDec.decode_incomplete hG dec hM got hb hset hlen j hj hnot).1,
+  ⟨fun hnot hlen => FecDec.decode_incomplete_recovered hG dec hM got hb hset hlen j hj hnot,
    fun hmem => ⟨(FecDec.decode_duplicate hG dec hM got hb hset j hj hmem).1,
                 (FecDec.decode_duplicate hG dec hM got hb hset j hj hmem).2.2.2⟩⟩
 
